@@ -276,6 +276,12 @@ impl TryFrom<&[u8]> for ElGamalKeypair {
         let public = ElGamalPubkey::try_from(&bytes[..ELGAMAL_PUBKEY_LEN])?;
         let secret = ElGamalSecretKey::try_from(&bytes[ELGAMAL_PUBKEY_LEN..])?;
 
+        // the zero scalar is not a valid secret key: it has no inverse, so no public key can be
+        // derived from it (`ElGamalPubkey::new` asserts that the scalar is non-zero)
+        if secret.get_scalar() == &Scalar::ZERO {
+            return Err(ElGamalError::KeypairDeserialization);
+        }
+
         if public != ElGamalPubkey::new(&secret) {
             return Err(ElGamalError::KeypairDeserialization);
         }
